@@ -87,7 +87,9 @@ enum Spec {
     /// a real background task through the router; variant: 0 normal, 1 unsupported tool, 2 invalid args,
     /// 3 post-spawn failure (absolute cwd), 4 shell exits while a background writer still holds stderr,
     /// 5/6/7 the shell exits at once and a descendant that inherited stdout (5) / stderr (6) / both (7)
-    /// writes `err` `late_ms` milliseconds later (well over a second: the waiter must still join the pumps)
+    /// writes `err` `late_ms` milliseconds later (well over a second: the waiter must still join the pumps),
+    /// 8 like 0 with an immediate cancel, but driven on a current-thread runtime: POST /tasks and POST cancel
+    /// complete before the spawned run_task is polled for the first time (cancel before it subscribes)
     Task { variant: u64, out: Segs, err: Segs, cap: u64, plimit: u64, exit: u64, cancel_after_ms: Option<u64>, page: u64, late_ms: u64 },
     /// a real foreground `bash` tool run
     Bash { out: Segs, err: Segs, pmax: u64, amax: u64, exit: u64 },
@@ -797,7 +799,7 @@ async fn run_task(w: &mut World, spec: &Spec) -> (Obs, Vec<u64>) {
     let (fo, fe) = (format!("o{}.bin", w.n), format!("e{}.bin", w.n));
     std::fs::write(w.ws.join(&fo), &outb).unwrap();
     std::fs::write(w.ws.join(&fe), &errb).unwrap();
-    let tail = if cancel_after_ms.is_some() { "; sleep 3" } else { "" };
+    let tail = if variant == 8 { "; sleep 1.2" } else if cancel_after_ms.is_some() { "; sleep 3" } else { "" };
     let late = (5..=7).contains(&variant);
     let marker = format!("late{}.done", w.n);
     let d = format!("{}.{:03}", late_ms / 1000, late_ms % 1000);
@@ -839,7 +841,10 @@ async fn run_task(w: &mut World, spec: &Spec) -> (Obs, Vec<u64>) {
         if ms > 0 {
             tokio::time::sleep(Duration::from_micros(ms * 700)).await;
         }
-        let _ = call_json(&w.app, req("POST", &format!("/tasks/{id}/cancel"), Some(json!({"reason": "c17"})))).await;
+        let (cst, _) = call_json(&w.app, req("POST", &format!("/tasks/{id}/cancel"), Some(json!({"reason": "c17"})))).await;
+        if cst != 202 {
+            o.fail("cancel_not_accepted", format!("POST /tasks/{{id}}/cancel -> {cst}"));
+        }
     }
     // wait (generously) for the terminal status frame in the event log, then let stragglers land
     let mut frames = vec![];
@@ -890,7 +895,7 @@ async fn run_task(w: &mut World, spec: &Spec) -> (Obs, Vec<u64>) {
             }
         }
     }
-    if variant != 0 && variant != 4 && !late {
+    if variant != 0 && variant != 4 && variant != 8 && !late {
         if codes.last() != Some(&24) {
             o.fail("failure_not_reported_failed", format!("{codes:?}"));
         }
@@ -1237,6 +1242,10 @@ fn main() {
         for i in 0..nlate {
             all.push(gen_late(&mut r, i));
         }
+        for _ in 0..(nlate / 4) {
+            let out = vec![(gen_text(&mut r, 12), 1)];
+            all.push(Spec::Task { variant: 8, out, err: vec![], cap: 1 << 20, plimit: 64, exit: 0, cancel_after_ms: Some(0), page: 0, late_ms: 0 });
+        }
     }
     // the late-writer tasks cost seconds of wall time each (and nothing else): they are started now,
     // each in a world of its own (tasks of one world share the workspace lock), and run concurrently
@@ -1248,6 +1257,21 @@ fn main() {
             started.insert(i, rt.spawn(async move {
                 let mut wd = World::new();
                 run_task(&mut wd, &sp).await
+            }));
+        }
+    }
+    // early cancel: a current-thread runtime of its own (a thread each), so that nothing polls the spawned
+    // run_task between POST /tasks and POST cancel
+    let mut threads: std::collections::HashMap<usize, std::thread::JoinHandle<(Obs, Vec<u64>)>> = Default::default();
+    for (i, s) in all.iter().enumerate() {
+        if let Spec::Task { variant: 8, .. } = s {
+            let sp = s.clone();
+            threads.insert(i, std::thread::spawn(move || {
+                let rt1 = tokio::runtime::Builder::new_current_thread().enable_all().build().unwrap();
+                rt1.block_on(async move {
+                    let mut wd = World::new();
+                    run_task(&mut wd, &sp).await
+                })
             }));
         }
     }
@@ -1268,6 +1292,13 @@ fn main() {
                         Ok((o, codes)) => Ok(res_codes_case(o, codes, *variant)),
                         Err(e) => Err(Box::new(e.to_string()) as Box<dyn std::any::Any + Send>),
                     }
+                } else if let Some(h) = threads.remove(&i) {
+                    h.join().map(|(o, codes)| {
+                        // observation, not a violation (the property orders the two cancel frames when they
+                        // exist): is a request made before run_task subscribed ever noticed?
+                        res.bump(if codes.contains(&2) { "early_cancel=taken" } else { "early_cancel=lost(202, never recorded)" });
+                        res_codes_case(o, codes, *variant)
+                    })
                 } else {
                     if world.is_none() {
                         let _g = rt.enter();
